@@ -66,6 +66,7 @@ ACC_ROUNDS = 3  # poll_connection_error calls in one poll of server::Connection:
 
 class C05(Prop):
     id = "C05"
+    parallel = False   # engine is timing-sensitive (real Quinn loopback / OS threads parked at hooks): one harness process at a time
     modules = ["H3.Props.C05"]
     engines = ["cell"]
     design_ref = "DESIGN.md section 7, C05; Appendix B.2"
